@@ -12,6 +12,9 @@ func VerifC08SetNow(c *Cache, f func() time.Time) { c.now = f }
 // VerifC08MaximumTTL reads the lease ceiling constant.
 func VerifC08MaximumTTL() time.Duration { return maximumTTL }
 
+// VerifC08LeaseCeiling reads the exported ceiling the resolver applies to the lease itself.
+func VerifC08LeaseCeiling() time.Duration { return MaximumTTL }
+
 // VerifC08Entry is one stored delegation (both CD buckets are listed).
 type VerifC08Entry struct {
 	Key       uint64
